@@ -107,4 +107,5 @@ func runC14(c *Ctx) {
 		runDialScenario(c, i)
 	}
 	runRealDialerPersistence(c)
+	runDialerRedialsAfterLocalRefusal(c)
 }
